@@ -66,7 +66,7 @@ def check(run):
     prev = None
     for ev in run.events:
         if not ev.has_snap:
-            if ev.msg.startswith('Stable state detected'):
+            if 'stable' in ev.msg.lower():      # whatever the wording: a log action of this round saying the surplus stopped decreasing
                 stable_log_in_round = True
             continue
         if ev.tag == 'round':
